@@ -253,10 +253,17 @@ func check(c Case, st *rig.Stats) error {
 					equiv = q.Src
 				}
 			}
-			if equiv != "" && len(live) == 1 {
+			if equiv != "" && len(s.M.Live()) == 1 {
 				mustReject = "identical up to parameter names to the only other route " + equiv
 			}
-			if equiv == "" && methodsReason == "" && utf8.ValidString(call.Pattern) {
+			allWellFormed := true // an accepted pattern outside the harness' grammar (e.g. "{x{-x}") makes equivalence undecidable here
+			for _, q := range s.M.Live() {
+				if s.Parsed(q) == nil {
+					allWellFormed = false
+					classes = append(classes, "table-holds-a-pattern-outside-the-grammar(must-accept-not-judged)")
+				}
+			}
+			if equiv == "" && methodsReason == "" && utf8.ValidString(call.Pattern) && allWellFormed {
 				// "never rejected as ambiguous": the same call must succeed on an empty
 				// router with the same interceptors, so a rejection here is the table's doing
 				fresh := rig.NewEnv().NewRouter("fresh", rig.Opts{Trace: c.Trace, Icpt: s.Icpt})
